@@ -365,6 +365,18 @@ func (r *Renderer) shiftOrRead(x *ssa.BinOp, depth int) (string, bool) {
 	return fmt.Sprintf("encoding/binary.(littleEndian).Uint%d(encoding/binary.LittleEndian, %s)", 8*n, b), true
 }
 
+func intWidth(b *types.Basic) int {
+	switch b.Kind() {
+	case types.Int8, types.Uint8:
+		return 8
+	case types.Int16, types.Uint16:
+		return 16
+	case types.Int32, types.Uint32:
+		return 32
+	}
+	return 64
+}
+
 // pureGetter: a module function that only reads a field path of its receiver / parameters and
 // returns it (x.GetF() ≡ x.a.F): rendering the call as that path is always faithful.
 func pureGetter(f *ssa.Function) bool {
@@ -1010,6 +1022,15 @@ func (r *Renderer) render1(v ssa.Value, depth int) string {
 		}
 		return "φ(" + strings.Join(keys, "|") + ")"
 	case *ssa.Convert:
+		// a narrowing integer conversion loses information (two different values can become equal):
+		// it is part of the term. Widening and same-width conversions are not shown.
+		if fb, ok1 := x.X.Type().Underlying().(*types.Basic); ok1 && fb.Info()&types.IsInteger != 0 {
+			if tb, ok2 := x.Type().Underlying().(*types.Basic); ok2 && tb.Info()&types.IsInteger != 0 {
+				if _, isConst := x.X.(*ssa.Const); !isConst && intWidth(tb) < intWidth(fb) {
+					return tb.Name() + "(" + r.render(x.X, depth+1) + ")"
+				}
+			}
+		}
 		return r.render(x.X, depth)
 	case *ssa.ChangeType:
 		return r.render(x.X, depth)
